@@ -115,6 +115,8 @@ struct Phase {
     bufs: Vec<(usize, usize)>,
     files_before: Vec<String>,
     files_after: Vec<String>,
+    /// the log directory was removed (with everything in it) just before this phase's writes
+    rmdir: bool,
 }
 
 impl Engine for RollingEngine {
@@ -125,7 +127,7 @@ impl Engine for RollingEngine {
         &["C16"]
     }
     fn rule(&self, _p: &str) -> String {
-        "configuration = rotation kind x prefix/suffix combination x file limit (none, 1..3) x interface (exclusive io::Write on one thread, or shared MakeWriter used by 2-4 threads under seeded schedules with preemption at every access of next_date, hooks H4/H7, and at the file lock) x (a third of the runs) foreign entries already in the directory - files that do not match prefix/suffix and a directory that does - which must survive untouched and never count against the limit x (half of the limited runs) 1-4 older log files of the appender's own naming already present, which count and are pruned first; history = phases of a simulated clock step (to an exact boundary, one second before it, several periods ahead, across month/year ends and leap days, standing still, stepping back) followed by writes of unique buffers; non-trivial = at least one rotation and (shared interface) at least two threads wrote in a phase that crossed a boundary, or (exclusive) a step back / stand-still occurred after a rotation; distinct = distinct (plan, schedule digest)".into()
+        "configuration = rotation kind x prefix/suffix combination x file limit (none, 1..3) x interface (exclusive io::Write on one thread, or shared MakeWriter used by 2-4 threads under seeded schedules with preemption at every access of next_date, hooks H4/H7, and at the file lock) x (a third of the runs) foreign entries already in the directory - files that do not match prefix/suffix and a directory that does - which must survive untouched and never count against the limit x (half of the limited runs) 1-4 older log files of the appender's own naming already present, which count and are pruned first; fault: the whole log directory is removed just before a rotating write (the new period's file must be created again, earlier data is legitimately gone); history = phases of a simulated clock step (to an exact boundary, one second before it, several periods ahead, across month/year ends and leap days, standing still, stepping back) followed by writes of unique buffers; non-trivial = at least one rotation and (shared interface) at least two threads wrote in a phase that crossed a boundary, or (exclusive) a step back / stand-still occurred after a rotation; distinct = distinct (plan, schedule digest)".into()
     }
     fn components(&self) -> Value {
         json!({"real": ["tracing_appender::rolling::{RollingFileAppender, RollingWriter, Inner}", "std::fs on a private temp directory", "time crate (date arithmetic and formatting)"], "stub": ["clock (hook H4 reads the simulated wall clock)", "parking_lot RwLock around the file (cooperative)"]})
@@ -157,7 +159,8 @@ impl Engine for RollingEngine {
                 _ => json!({"mode": "small", "secs": rng.range(1, 20)}),
             };
             let per: Vec<u64> = (0..nthreads).map(|_| rng.range(if shared { 1 } else { 1 }, 3)).collect();
-            steps.push(json!({"clock": clock, "writes": per}));
+            let rmdir = rot != "never" && rng.chance(1, 12) && matches!(clock["mode"].as_str(), Some("to_boundary") | Some("after_boundary") | Some("jump"));
+            steps.push(json!({"clock": clock, "writes": per, "rmdir": rmdir}));
         }
         let sched = if shared { Sched::swarm(&mut rng, 200) } else { Sched::op_order(rng.next_u64()) };
         json!({"engine": "rolling", "prop": g.prop, "mode": g.mode, "cfg": {"rot": rot, "prefix": prefix, "suffix": suffix, "limit": limit, "shared": shared, "threads": nthreads, "start": start, "decoys": rng.chance(1, 3), "old_logs": if !limit.is_null() && rot != "never" && (!prefix.is_null() || !suffix.is_null()) && rng.chance(1, 2) { rng.range(1, 4) } else { 0 }}, "steps": steps, "sched": serde_json::to_value(&sched).unwrap(), "hang_is_violation": true})
@@ -262,6 +265,7 @@ impl Engine for RollingEngine {
                 }
             }
             let mut phase_idx = 0usize;
+            let mut removed_any = false;
             for s in &steps {
                 let p = period_secs(&rot);
                 let c = &s["clock"];
@@ -294,6 +298,15 @@ impl Engine for RollingEngine {
                     // the only real sleep in the system: file creation timestamps have tick granularity and
                     // pruning orders by them; it influences no choice the simulator makes
                     std::thread::sleep(std::time::Duration::from_millis(12));
+                }
+                // fault: somebody removes the whole log directory; injected only where the next write rotates, so that
+                // the appender has to create the new period's file (and the directory) again
+                let mut rmdir = false;
+                if s["rmdir"].as_bool().unwrap_or(false) && boundary != 0 && now >= boundary {
+                    let _ = std::fs::remove_dir_all(&dir2);
+                    fault("log_directory_removed");
+                    rmdir = true;
+                    removed_any = true;
                 }
                 let before: Vec<String> = read_dir(&dir2).keys().cloned().collect();
                 let per: Vec<usize> = s["writes"].as_array().cloned().unwrap_or_default().iter().map(|x| x.as_u64().unwrap_or(1) as usize).collect();
@@ -333,7 +346,7 @@ impl Engine for RollingEngine {
                 }
                 let after: Vec<String> = read_dir(&dir2).keys().cloned().collect();
                 ev(format!("phase clock={now} files={:?}", after));
-                result2.lock().unwrap().push(Phase { clock: now, bufs, files_before: before, files_after: after });
+                result2.lock().unwrap().push(Phase { clock: now, bufs, files_before: before, files_after: after, rmdir });
                 if boundary != 0 && now >= boundary {
                     boundary = next_boundary(&rot, now);
                 }
@@ -343,12 +356,12 @@ impl Engine for RollingEngine {
             }
             drop(shared_app);
             *ff2.lock().unwrap() = read_dir(&dir2);
-            for f in &dfiles {
+            for f in dfiles.iter().filter(|_| !removed_any) {
                 if std::fs::read(dir2.join(f)).ok().as_deref() != Some(&b"not a log file\n"[..]) {
                     violation("foreign-file-touched", format!("{f:?} was in the log directory before the appender was built and does not match its prefix/suffix, but it was removed or changed"));
                 }
             }
-            for d in &ddirs {
+            for d in ddirs.iter().filter(|_| !removed_any) {
                 if !dir2.join(d).is_dir() {
                     violation("foreign-file-touched", format!("the directory {d:?} inside the log directory was removed"));
                 }
@@ -396,6 +409,11 @@ fn oracle(cfg: &Value, phases: &[Phase], files: &BTreeMap<String, Vec<u8>>) {
             still_or_back_after_rotation = true;
         }
         prev_clock = ph.clock;
+        if ph.rmdir {
+            for f in existing.drain(..) {
+                pruned.push(f);
+            }
+        }
         if rotates {
             rotations += 1;
             cur = file_name(rot, &prefix, &suffix, ph.clock);
